@@ -37,11 +37,11 @@ def main(path):
         except ImportError:
             pass
     cf = contract.REGISTRY[rel]; K = cf.kernels[fn]
-    h = Harness(group_of(rel)); sig = h.sigs[fn]
+    h = Harness(group_of(rel)); sig = h.sigs[fn.split('#')[0]]
     args = _unjson(w['args'])
-    r = h.run([(fn, args)])[0]
+    r = h.run([(fn.split('#')[0], args)])[0]
     from props import common
-    bad = judge.judge(K, cf.specs, sig, args, r, common.consts_for(rel))
+    bad = judge.judge(K, cf.specs, sig, args, r, common.fdc_consts())
     print('arguments:', args)
     print('returned:', r.get('ret'), r.get('arrays'))
     if r.get('san'):
